@@ -156,13 +156,29 @@ func e16RootCase(seed uint64, n int, handlerKind, closeAt, created string, overf
 		var mon kcache.Monitor
 		var err error
 		createdAt := 0
+		preset := false
 		mk := func() bool {
-			mon, err = kcache.NewMonitor(g.root.Publisher(), wrap)
+			var pub kcache.Publisher = g.root.Publisher()
+			if created == "after-ready-prebuffered" {
+				// events are already buffered in the monitor's subscription when its
+				// goroutine runs for the first time (the publisher is ready)
+				pub = &prebufPublisher{Publisher: pub, after: func() {
+					createdAt = g.sentCount()
+					preset = true
+					for i := 0; i < 3; i++ {
+						g.mutate(rng, u)
+						note()
+					}
+				}}
+			}
+			mon, err = kcache.NewMonitor(pub, wrap)
 			if err != nil {
 				r.V("C16", "monitor-create-error", "%v", err)
 				return false
 			}
-			createdAt = g.sentCount()
+			if !preset {
+				createdAt = g.sentCount()
+			}
 			h.mu.Lock()
 			h.doneCh = mon.Done()
 			h.mu.Unlock()
@@ -303,6 +319,21 @@ func e16RootCase(seed uint64, n int, handlerKind, closeAt, created string, overf
 		r.Key(id)
 		r.Sample = map[string]interface{}{"desc": d, "callbacks": len(calls), "published": len(sent)}
 	}}
+}
+
+// prebufPublisher publishes events right after the real Subscribe returned,
+// i.e. before NewMonitor starts the monitor's goroutine.
+type prebufPublisher struct {
+	kcache.Publisher
+	after func()
+}
+
+func (p *prebufPublisher) Subscribe() (kcache.Subscription, error) {
+	s, err := p.Publisher.Subscribe()
+	if err == nil {
+		p.after()
+	}
+	return s, err
 }
 
 type initSpy struct {
@@ -459,8 +490,8 @@ func init() {
 		for rep := 0; rep < reps; rep++ {
 			for _, hk := range []string{"instant", "fast", "slow", "blocked"} {
 				for _, cl := range []string{"none", "before-ready", "mid-stream", "during-callback", "publisher-before-ready"} {
-					for _, cr := range []string{"before-ready", "after-ready"} {
-						if cr == "after-ready" && (cl == "before-ready" || cl == "publisher-before-ready") {
+					for _, cr := range []string{"before-ready", "after-ready", "after-ready-prebuffered"} {
+						if cr != "before-ready" && (cl == "before-ready" || cl == "publisher-before-ready") {
 							continue
 						}
 						if hk == "blocked" && cl != "none" {
